@@ -3,14 +3,16 @@ from __future__ import annotations
 
 import random
 
-from ..engine import gate, monitors, overlap, reuse, suite
+from ..engine import cleanup, gate, monitors, overlap, reuse, suite
 from ..runner import Divergence, Driver, Env, Outcome, diff_streams
 
 THEOREMS = ["C04_init_live", "C04_terminal_last", "C04_crash_unreachable", "C04_terminal_last_unconditional",
             "C04_outcome_once", "C04_consumer_terminates_of_endedWell", "C04_consumer_terminates", "C04_statement_holds",
             "C04_refuted_witness_unrepaired", "C04_refuted_unrepaired", "C04_unrepaired_differs_only_on_raise",
             "C04_overlap_source_shape", "C04_overlap_exactly_once", "C04_overlap_holds", "C04_overlap_refuted_unrepaired",
-            "C04_overlap_guarded_unrepaired", "C04_overlap_guard_position_matters"]
+            "C04_overlap_guarded_unrepaired", "C04_overlap_guard_position_matters",
+            "C04_cleanup_source_shape", "C04_cleanup_any_grace", "C04_cleanup_holds", "C04_cleanup_returns_with_last",
+            "C04_cleanup_refuted_wait_only", "C04_cleanup_wait_only_partial"]
 LEAN_TARGETS = ["WfProps.C04"]
 EXPLANATION = (
     "Runner LTS: for every configuration, retry-policy oracle (also one that raises), initial state satisfying the "
@@ -33,7 +35,16 @@ EXPLANATION = (
     "or lost (C04_overlap_exactly_once); false of the code before repair fix-C04e (C04_overlap_refuted_unrepaired; true part "
     "C04_overlap_guarded_unrepaired) and of a guard evaluated in front of the lock (C04_overlap_guard_position_matters). Tie: the "
     "real adapter driven op by op against the model. Search: 1-3 consumers of one run's stream alive at once on live workflows, "
-    "all four outcome kinds, under the virtual loop - all finished once the run has ended and nothing is runnable."
+    "all four outcome kinds, under the virtual loop - all finished once the run has ended and nothing is runnable. "
+    "Steps that take a while to stop: worker-cleanup model of _ControlLoopRunner.cleanup_tasks (every ending runs it before the terminal "
+    "event is published): the rest of a cancelled body is any list of segments (wait; a further cancellation aborts it / ends the waiting / "
+    "is ignored; optional write), the await is the one re-extracted from the source (wait_for(gather(..), 0.5): on expiry cancels again and "
+    "returns only when all are done): when the method returns no worker is running and none writes later, for all bodies and grace periods "
+    "(C04_cleanup_holds, C04_cleanup_any_grace, C04_cleanup_returns_with_last); false of asyncio.wait(.., timeout) in its place "
+    "(C04_cleanup_refuted_wait_only; true part C04_cleanup_wait_only_partial). Tie: the real method on harness-made tasks against the model. "
+    "Search: live runs ending all four ways while 1-3 helper steps with asynchronous cancellation teardowns (0.125-2.5 s, four reactions to a "
+    "second cancel) are at work, loop kept going after the end - nothing after the terminal event, ever; no step body in flight once the "
+    "outcome is available."
 )
 ASSUMPTIONS = suite.ENGINE_ASSUMPTIONS + [
     "steps returning non-events are turned into step failures by the step wrapper (exercised by the monitors, 'ret bad' scripts)",
@@ -45,6 +56,11 @@ ASSUMPTIONS = suite.ENGINE_ASSUMPTIONS + [
     "still end a run without a terminal event",
     "several consumers: consumer tasks are not cancelled while they wait; a consumer that has been given the terminal event eventually "
     "asks for the next item or closes its generator (model: `finish`); asyncio.Lock is FIFO without barging (CPython 3.12, trusted)",
+    "stopping workers: nobody cancels the run's task from outside while cleanup_tasks waits (a second handler.cancel() during the grace "
+    "interrupts the wait: DESIGN 14.3, C30 observation); sync steps (executor threads) cannot be cancelled and are not counted as alive; "
+    "asyncio.wait_for / gather / wait semantics (CPython 3.12) enter the worker-cleanup model as read and are exercised by its correspondence; "
+    "a teardown ending in the very instant the grace period expires (two equal timers) is not modelled (driver: `tie`); the engine-runner "
+    "correspondence skips runs whose reducer is called at a fractional virtual time",
 ]
 
 
@@ -70,6 +86,73 @@ def _cancel_reporting(spec: dict, rng) -> dict:
     spec["externals"] = [e for e in spec.get("externals", []) if e.get("op") != "cancel"] + [{"op": "cancel", "after_quiet": rng.randint(0, 4)}]
     spec.pop("timeout", None)
     return spec
+
+
+TEARDOWN_SECS = [0.125, 0.25, 0.375, 0.625, 0.75, 1.25, 2.5]  # both sides of the control loop's worker-cancel grace (not read from it)
+TEARDOWN_MODES = ["finally", "swallow", "shield", "stubborn"]
+ENDINGS = ["result", "failure", "cancel", "timeout"]
+
+
+def gen_teardown_spec(rng) -> dict:
+    """One run with 1..3 helper steps still at work when the run ends (result / step failure / user cancel / timeout), each
+    of which reacts to its cancellation with an ASYNCHRONOUS teardown (0.125 .. 2.5 virtual seconds; interrupted by, cut short
+    by, or deaf to a further cancellation; or swallowing the first one) and then says a last word on the stream.  After the
+    run's end the loop is kept going until every body has come to its end (`drain_after_end`)."""
+    ending = rng.choice(ENDINGS)
+    nhelp = rng.choice([1, 1, 2, 3])
+    helper_tys = [5, 6, 7][:nhelp]
+    main: dict = {"name": "s00", "accepts": [0], "nw": 1, "script": []}
+    steps = [main]
+    for i, ty in enumerate(helper_tys):
+        main["script"].append(["send", ty, f"s{i + 1:02d}"])
+        script: list = [["on_cancel_teardown", rng.choice(TEARDOWN_SECS), rng.choice([8, 9, 10, 10, None]), rng.choice(TEARDOWN_MODES)]]
+        if rng.random() < 0.3:
+            script.append(["on_cancel_stream", 11])  # also reports at once when cancelled
+        if rng.random() < 0.6:
+            script.append(["stream", 9])
+        # mostly busy until the run ends; sometimes waiting for I/O the schedule may complete first (then it is simply done)
+        script.append(["block"] if rng.random() < 0.8 else ["gate"])
+        script.append(["ret", "none"])
+        steps.append({"name": f"s{i + 1:02d}", "accepts": [ty], "nw": rng.choice([1, 2]), "script": script})
+    if rng.random() < 0.4:
+        main["script"].append(["stream", 8])
+    spec: dict = {"steps": steps, "externals": [], "drain_after_end": 20}
+    if ending == "result":
+        main["script"] += [["gate"], ["ret", "stop"]]
+    elif ending == "failure":
+        main["script"] += [["gate"], ["fail_always", rng.randint(1, 9)]]
+        if rng.random() < 0.3:
+            main["retry"] = {"kind": "attempts", "n": 2, "wait": rng.choice([0, 1])}
+    elif ending == "cancel":
+        main["script"] += [["block"], ["ret", "stop"]]
+        spec["externals"] = [{"op": "cancel", "after_quiet": rng.randint(1, 3)}]
+    else:
+        main["script"] += [["block"], ["ret", "stop"]]
+        spec["timeout"] = rng.choice([1, 2, 3])
+    return spec
+
+
+def _teardown_runs(env: Env, out: Outcome, n: int) -> None:
+    """steps whose cancellation teardown takes a while (see gen_teardown_spec): nothing is published after the terminal event --
+    not during the run's end and not later -- and no step of the run is still at work once the outcome is available; the runs
+    also go through the runner correspondence"""
+    rng = random.Random(env.rng.randrange(1 << 30))
+    jobs = [{"spec": sp, "seed": 0} for item in suite.load_corpus("C04/teardown") for sp in item["specs"]]
+    jobs += [{"spec": gen_teardown_spec(rng), "seed": rng.randrange(1 << 30)} for _ in range(n)]
+    # (K) runner correspondence too, except for runs whose reducer is called at a fractional time (see suite.live_runs)
+    traces = suite.live_runs(env, out, 0, [monitors.mon_c04], extra_specs=jobs)
+    for tr in traces:
+        if not tr.spec.get("drain_after_end"):
+            continue  # (a replayed case of another family)
+        ending = {"result": "result", "error": "failure", "cancelled": "cancel", "timeout": "timeout"}.get(tr.outcome[0], tr.outcome[0])
+        out.count("teardown:ending:" + ending)
+        for t in tr.teardowns:
+            side = "longer_than_half_a_second" if t["secs"] > 0.5 else "shorter_than_half_a_second"
+            out.count(f"teardown:{ending}:{t['mode']}:{side}:{t['how']}" + (":wrote" if t["wrote"] else ""))
+        if any(t["secs"] > 0.5 for t in tr.teardowns) and any(t["secs"] < 0.5 for t in tr.teardowns):
+            out.count("teardown:both_sides_in_one_run")
+        if tr.teardowns:
+            out.nontrivial(("teardown", repr(tr.spec), tuple(tr.actions)))
 
 
 def _reuse_runs(env: Env, out: Outcome, n: int) -> None:
@@ -159,10 +242,55 @@ def _gate_runs(env: Env, out: Outcome, n: int) -> None:
         out.divergences.append(d)
 
 
+def _cleanup_runs(env: Env, out: Outcome, n: int) -> None:
+    """(K) the real `_ControlLoopRunner.cleanup_tasks` on harness-made worker tasks that unwind from their cancellation as
+    generated programs say (segments: wait / reaction to a further cancellation / write), against `wfdriver workercleanup`
+    (await shape and grace period from the current source); (S) when the method returns no worker is running and none
+    writes later"""
+    rng = random.Random(env.rng.randrange(1 << 30))
+    ops: list[str] = []
+    if env.replay is not None and isinstance(env.replay.get("payload", {}).get("case"), dict) and "cleanup_op" in env.replay["payload"]["case"]:
+        ops.append(env.replay["payload"]["case"]["cleanup_op"])
+    ops += [op for item in suite.load_corpus("C04/cleanup") for op in item["ops"]]
+    ops += [cleanup.gen_op(rng) for _ in range(n)]
+    ops += list(cleanup.MALFORMED)
+    exp: list[str] = []
+    for op in ops:
+        line, facts = cleanup.run_real(op)
+        exp.append(line)
+        out.evaluations += 1
+        out.count("cleanup:ops")
+        if facts:
+            out.count("cleanup:workers", len(facts["done"]))
+            out.count("cleanup:returned:" + ("at_once" if facts["returned"] == 0 else "within_half_a_second" if facts["returned"] < 4
+                                             else "at_half_a_second" if facts["returned"] == 4 else "later_waiting_for_a_deaf_worker"))
+            out.count("cleanup:second_cancel_delivered", sum(facts["more"].values()))
+            if len(facts["done"]) >= 1 and facts["returned"] > 0:
+                out.nontrivial(("cleanup", op))
+        else:
+            out.count("cleanup:malformed")
+        out.violations += cleanup.monitor(op, facts)
+    try:
+        mo = Driver("workercleanup").run(ops)
+    except Exception as ex:
+        out.divergences.append(Divergence("workercleanup", 0, "<driver>", repr(ex), ""))
+        return
+    # a tie (a segment ending in the very instant the grace period expires) is not modelled: whatever the code did stands
+    ties = [i for i, m in enumerate(mo) if m == "tie"]
+    out.count("cleanup:tie_skipped", len(ties))
+    exp = ["tie" if i in ties else e for i, e in enumerate(exp)]
+    out.traces_validated += len(ops)
+    out.disagreements_checked += len(ops)
+    d = diff_streams("workercleanup", ops, mo, exp)
+    if d is not None:
+        d.context = {"cleanup_op": ops[d.index] if d.index < len(ops) else None}
+        out.divergences.append(d)
+
+
 def run(env: Env) -> Outcome:
     out = Outcome()
     out.rule = ("direct (state,tick) pairs + live scripted workflows (steps that raise, return non-events, race with StopEvent, "
-                "cancel/timeout externals, raising retry policies in a tenth of the specs); run histories reusing one run_id on one runtime; several consumers of one run's stream alive at once (all four outcome kinds); non-trivial = more than 2 ticks; distinct by (spec, schedule)")
+                "cancel/timeout externals, raising retry policies in a tenth of the specs); run histories reusing one run_id on one runtime; several consumers of one run's stream alive at once (all four outcome kinds); runs ending while steps with slow cancellation teardowns are at work (all four outcome kinds, teardown times on both sides of the cancel grace); cleanup_tasks on generated worker programs; non-trivial = more than 2 ticks; distinct by (spec, schedule)")
     suite.direct_corr(env, out, env.budget(3000, 60000))
     suite.live_runs(env, out, env.budget(400, 8000), [monitors.mon_c04], extra_specs=[c for c in suite.load_corpus("C04") if "spec" in c],
                     mutate_spec=_raising)
@@ -170,4 +298,6 @@ def run(env: Env) -> Outcome:
     _reuse_runs(env, out, env.budget(150, 3000))
     _overlap_runs(env, out, env.budget(220, 3000))
     _gate_runs(env, out, env.budget(250, 4000))
+    _teardown_runs(env, out, env.budget(120, 1200))
+    _cleanup_runs(env, out, env.budget(150, 3000))
     return out
